@@ -4,12 +4,14 @@
  * spawn and output stand-ins of harness/common/echsd_env.h.
  * Two tasks A and B with symbolic limits; a symbolic schedule of NEV events:
  *   0/1  an occurrence of A/B falls due (the periodic watcher's callback runs)
- *   2..5 the supervised child in watcher slot k-2 exits
+ *   2..3 the supervised child in watcher slot k-2 exits (4..5 unused)
  *   6/7  an unsupervised but really running execution of A/B exits
  * Ground truth kept here: an execution is RUNNING from a spawn without --no-run
  * until its exit event, whether or not the daemon supervises it. */
 #define ECHS_TASK_POOL_INIZ	(2U)
-#define ECHS_CHLD_POOL_INIZ	(4U)
+#define ECHS_CHLD_POOL_INIZ	(1U)
+#define ENV_MAXC 2
+#define ENV_MAXP 2
 #include "echsd_env.h"
 
 #if !defined NEV
@@ -37,8 +39,8 @@ static void due(struct _task_s *w, int which, long long limit)
 	for (unsigned k = 0; k < ENV_MAXC; k++) was[k] = env_chl[k] != NULL;
 	task_cb(NULL, &w->w, 0);
 	CHECK(env_nspawn == before + 1U, "every due occurrence hands exactly one request to the executor");
-	if (env_nspawn == before + 1U && before < ENV_MAXSPAWN) {
-		const int norun = env_spawn[before].norun;
+	if (env_nspawn == before + 1U) {
+		const int norun = env_last_spawn.norun;
 		if (limit >= 1 && running >= (unsigned long long)limit) {
 			CHECK(norun, "an occurrence falling due while N executions run is reported as not run");
 		} else {
@@ -84,7 +86,7 @@ void harness(void)
 		if (e <= 1) {
 			due(e == 0 ? &WA : &WB, e == 0 ? 1 : 2, e == 0 ? la : lb);
 		} else if (e <= 5) {
-			const unsigned k = (unsigned)e - 2U;
+			const unsigned k = ((unsigned)e - 2U) % ENV_MAXC;
 			const int wk = env_chl[k] != NULL ? sup_task[k] : 0;
 			if (env_child_exit(k) && wk) {
 				run_sup[wk]--;
